@@ -1,12 +1,16 @@
 pub mod closure;
 pub mod c01;
 pub mod c02;
+pub mod c03;
+pub mod c06;
 pub mod c08;
 pub mod c09;
 pub mod c10;
 pub mod c11;
 pub mod c12;
 pub mod c13;
+pub mod c14;
+pub mod c15;
 pub mod c16;
 pub mod c17;
 pub mod c18;
@@ -15,19 +19,23 @@ pub mod c19;
 use crate::engine::{Property, Tier};
 
 pub const ALL: &[&str] = &[
-    "C01", "C02", "C08", "C09", "C10", "C11", "C12", "C13", "C16", "C17", "C18", "C19",
+    "C01", "C02", "C03", "C06", "C08", "C09", "C10", "C11", "C12", "C13", "C14", "C15", "C16", "C17", "C18", "C19",
 ];
 
 pub fn property(id: &str, tier: Tier) -> Option<Property> {
     Some(match id {
         "C01" => c01::property(tier),
         "C02" => c02::property(tier),
+        "C03" => c03::property(tier),
+        "C06" => c06::property(tier),
         "C08" => c08::property(tier),
         "C09" => c09::property(tier),
         "C10" => c10::property(tier),
         "C11" => c11::property(tier),
         "C12" => c12::property(tier),
         "C13" => c13::property(tier),
+        "C14" => c14::property(tier),
+        "C15" => c15::property(tier),
         "C16" => c16::property(tier),
         "C17" => c17::property(tier),
         "C18" => c18::property(tier),
